@@ -662,3 +662,620 @@ Proof.
       split; [rewrite Hlen; exact Hi|]. split; [exact Hki|]. intros j Hj. apply Hu. apply (Hfr j). exact Hj.
     + intros j Hj. apply (Hk j). apply (Hfr j). exact Hj.
 Qed.
+
+(* ================================================================================
+   5. runs: refinement of the slot set by the abstract state
+   ================================================================================ *)
+
+Inductive kabs_run (D : list Z) (timeout : Z) (k : lpf_key)
+  : kabs -> list lpl_ev -> list (option (list Z)) -> kabs -> Prop :=
+| kr_nil st : kabs_run D timeout k st [] [] st
+| kr_frag st t src dst f avail evs rs st' : frag_key src dst f = k ->
+    kabs_run D timeout k (fst (kabs_frag D timeout t f avail st)) evs rs st' ->
+    kabs_run D timeout k st (EvFrag t src dst f :: evs) (snd (kabs_frag D timeout t f avail st) :: rs) st'
+| kr_other st e r evs rs st' : ~ ev_is k e ->
+    kabs_run D timeout k (kexpire (ev_time e) st) evs rs st' ->
+    kabs_run D timeout k st (e :: evs) (r :: rs) st'.
+
+(* R: every run of the model is a run of the abstract machine of key k, for ANY interleaving with
+   tame fragments of other datagrams / senders and any timing; in particular it never panics *)
+Theorem ev_run_refines D tag src dst timeout : forall evs ss st,
+  lpf_IPV6_HDR <= blen D -> let k := (src, dst, blen D, tag) in
+  kstate D k ss st -> Forall (ev_ok D k tag) evs ->
+  exists ss' rs st', ev_run timeout evs ss = Ok (ss', rs) /\ kstate D k ss' st' /\ kabs_run D timeout k st evs rs st'.
+Proof.
+  intros evs ss st Hsz k. revert ss st. induction evs as [|e evs IH]; intros ss st Hst Hok.
+  - exists ss, [], st. split; [reflexivity|]. split; [exact Hst | constructor].
+  - inversion Hok as [|? ? He Hrest]; subst.
+    pose proof (ev_step_kabs D tag src dst timeout e ss st Hsz Hst He) as HM. cbv zeta in HM. fold k in HM. cbn [ev_run].
+    destruct e as [t src' dst' f|t r].
+    + destruct (lpf_key_eqb (frag_key src' dst' f) k) eqn:Ek.
+      * destruct HM as (avail & ss1 & E1 & Hst1 & _). rewrite E1. cbn [obind].
+        destruct (IH ss1 _ Hst1 Hrest) as (ss2 & rs & st2 & E2 & Hst2 & Hrun). rewrite E2. cbn [obind].
+        eexists _, _, _. split; [reflexivity|]. split; [exact Hst2|].
+        apply kr_frag; [apply lpf_key_eqb_eq; exact Ek | exact Hrun].
+      * destruct HM as (ss1 & r & E1 & Hst1). rewrite E1. cbn [obind].
+        destruct (IH ss1 _ Hst1 Hrest) as (ss2 & rs & st2 & E2 & Hst2 & Hrun). rewrite E2. cbn [obind].
+        eexists _, _, _. split; [reflexivity|]. split; [exact Hst2|].
+        apply kr_other; [|exact Hrun]. cbn [ev_is]. intros H. rewrite H, lpf_key_eqb_refl in Ek. discriminate Ek.
+    + destruct HM as (E1 & Hst1). rewrite E1. cbn [obind].
+      destruct (IH _ _ Hst1 Hrest) as (ss2 & rs & st2 & E2 & Hst2 & Hrun). rewrite E2. cbn [obind].
+      eexists _, _, _. split; [reflexivity|]. split; [exact Hst2|].
+      apply kr_other; [cbn; tauto | exact Hrun].
+Qed.
+
+(* the same when the first event is a fragment under k that finds a free (or expired) slot and no
+   slot claimed for k: from then on the run is that of a slot created at that instant *)
+Theorem ev_run_refines_claim D tag src dst timeout t0 f0 rest ss :
+  lpf_IPV6_HDR <= blen D -> 0 <= timeout -> let k := (src, dst, blen D, tag) in
+  kstate D k ss None -> Forall (ev_ok D k tag) (EvFrag t0 src dst f0 :: rest) ->
+  frag_key src dst f0 = k ->
+  (exists j, (j < length ss)%nat /\ slot_avail t0 (nth j ss lpf_slot_new)) ->
+  exists ss' rs st', ev_run timeout (EvFrag t0 src dst f0 :: rest) ss = Ok (ss', rs) /\ kstate D k ss' st' /\
+    kabs_run D timeout k (Some (asm_new, None, t0 + timeout)) (EvFrag t0 src dst f0 :: rest) rs st'.
+Proof.
+  intros Hsz Hto k Hst Hok Hk0 Hav. inversion Hok as [|? ? He Hrest]; subst.
+  pose proof (ev_step_kabs D tag src dst timeout _ ss None Hsz Hst He) as HM. cbn beta iota in HM.
+  fold k in HM. rewrite Hk0, lpf_key_eqb_refl in HM.
+  destruct HM as (avail & ss1 & E1 & Hst1 & Havail). rewrite (Havail Hav) in *. cbn [ev_run]. rewrite E1. cbn [obind].
+  destruct (ev_run_refines D tag src dst timeout rest ss1 _ Hsz Hst1 Hrest) as (ss2 & rs & st2 & E2 & Hst2 & Hrun).
+  rewrite E2. cbn [obind]. eexists _, _, _. split; [reflexivity|]. split; [exact Hst2|].
+  assert (Heq : kabs_frag D timeout t0 f0 true None = kabs_frag D timeout t0 f0 true (Some (asm_new, None, t0 + timeout))).
+  { unfold kabs_frag. cbn [kexpire]. replace (t0 + timeout <? t0) with false by (symmetry; apply Z.ltb_ge; lia). reflexivity. }
+  rewrite Heq in *. apply kr_frag; [exact Hk0 | exact Hrun].
+Qed.
+
+Lemma kabs_run_app D timeout k : forall l1 l2 st rs st',
+  kabs_run D timeout k st (l1 ++ l2) rs st' ->
+  exists rs1 rs2 stm, rs = rs1 ++ rs2 /\ length rs1 = length l1 /\
+    kabs_run D timeout k st l1 rs1 stm /\ kabs_run D timeout k stm l2 rs2 st'.
+Proof.
+  induction l1 as [|e l1 IH]; intros l2 st rs st' H.
+  - exists [], rs, st. split; [reflexivity|]. split; [reflexivity|]. split; [constructor | exact H].
+  - cbn [app] in H.
+    inversion H as [|st0 t src dst f avail evs0 rs0 st0' Hk Hrun|st0 e0 r evs0 rs0 st0' Hnk Hrun]; subst.
+    + destruct (IH _ _ _ _ Hrun) as (rs1 & rs2 & stm & -> & Hl & H1 & H2).
+      eexists (_ :: rs1), rs2, stm. split; [reflexivity|]. split; [cbn; lia|]. split; [|exact H2].
+      apply kr_frag; [reflexivity | exact H1].
+    + destruct (IH _ _ _ _ Hrun) as (rs1 & rs2 & stm & -> & Hl & H1 & H2).
+      eexists (_ :: rs1), rs2, stm. split; [reflexivity|]. split; [cbn; lia|]. split; [|exact H2].
+      apply kr_other; assumption.
+Qed.
+
+Lemma kabs_run_length D timeout k st evs rs st' : kabs_run D timeout k st evs rs st' -> length rs = length evs.
+Proof. induction 1; cbn; lia. Qed.
+
+Lemma ev_run_app timeout : forall l1 l2 ss ss' rs,
+  ev_run timeout (l1 ++ l2) ss = Ok (ss', rs) ->
+  exists ssm rs1 rs2, ev_run timeout l1 ss = Ok (ssm, rs1) /\ ev_run timeout l2 ssm = Ok (ss', rs2) /\
+                      rs = rs1 ++ rs2 /\ length rs1 = length l1.
+Proof.
+  induction l1 as [|e l1 IH]; intros l2 ss ss' rs H.
+  - exists ss, [], rs. auto.
+  - cbn [app ev_run] in *. destruct (ev_step timeout e ss) as [(ss1, d)| |]; try discriminate H. cbn [obind] in *.
+    destruct (ev_run timeout (l1 ++ l2) ss1) as [(ss2, ds)| |] eqn:E; try discriminate H. cbn [obind] in H.
+    injection H as <- <-. destruct (IH _ _ _ _ E) as (ssm & rs1 & rs2 & E1 & E2 & -> & Hl).
+    rewrite E1. cbn [obind]. exists ssm, (d :: rs1), rs2. split; [reflexivity|]. split; [exact E2|].
+    split; [reflexivity | cbn; lia].
+Qed.
+
+(* a fresh interface *)
+Lemma kstate_new D k : kstate D k lpf_slots_new None.
+Proof.
+  split; [apply gen_slots_new|]. split; [apply lpf_slots_new_inv|]. intros j.
+  unfold lpf_slots_new. generalize (Z.to_nat lpf_SLOTS). intros n. revert j.
+  induction n as [|n IH]; intros [|j]; cbn; try discriminate. apply IH.
+Qed.
+
+(* ================================================================================
+   6. what has been received under key k: spans, coverage, completeness
+   ================================================================================ *)
+
+(* the span of an event if it is a fragment under key k *)
+Definition ev_kspan (D : list Z) (k : lpf_key) (e : lpl_ev) : option (Z * Z) :=
+  match e with
+  | EvFrag _ src dst f => if lpf_key_eqb (frag_key src dst f) k then Some (frag_span D f) else None
+  | EvOther _ _ => None
+  end.
+Definition ev_kfirstb (k : lpf_key) (e : lpl_ev) : bool :=
+  match e with
+  | EvFrag _ src dst f => lpf_key_eqb (frag_key src dst f) k && frag_is_first f
+  | EvOther _ _ => false
+  end.
+
+Definition kcov (D : list Z) (k : lpf_key) (evs : list lpl_ev) (x : Z) : Prop :=
+  Exists (fun e => exists o s, ev_kspan D k e = Some (o, s) /\ o <= x < o + s) evs.
+Definition kfirst (k : lpf_key) (evs : list lpl_ev) : Prop := existsb (ev_kfirstb k) evs = true.
+(* the fragments under k among [evs] contain a FRAG1 and cover every octet of the datagram *)
+Definition k_complete (D : list Z) (k : lpf_key) (evs : list lpl_ev) : Prop :=
+  kfirst k evs /\ forall x, 0 <= x < blen D -> kcov D k evs x.
+
+(* the canonical merged union (C15: asm_add_unb) of what arrived under k, and the total size *)
+Fixpoint kacc (D : list Z) (k : lpf_key) (u : asm) (evs : list lpl_ev) : asm :=
+  match evs with
+  | [] => u
+  | e :: r => kacc D k (match ev_kspan D k e with Some (o, s) => asm_add_unb u o s | None => u end) r
+  end.
+Definition ktot (D : list Z) (k : lpf_key) (tot : option Z) (evs : list lpl_ev) : option Z :=
+  if existsb (ev_kfirstb k) evs then Some (blen D) else tot.
+
+(* along the arrival order the merged union of the ranges received under k never needs more than
+   n contiguous ranges (n = ASSEMBLER_MAX_SEGMENT_COUNT): exactly the orders the tracker can follow
+   (C15_add_accepts_when_fits / C15_add_refused_only_when_too_many) *)
+Fixpoint gaps_fit (n : Z) (D : list Z) (k : lpf_key) (u : asm) (evs : list lpl_ev) : Prop :=
+  match evs with
+  | [] => True
+  | e :: r =>
+      match ev_kspan D k e with
+      | Some (o, s) => Z.of_nat (length (asm_add_unb u o s)) <= n /\ gaps_fit n D k (asm_add_unb u o s) r
+      | None => gaps_fit n D k u r
+      end
+  end.
+
+Lemma ev_kspan_is D k e o s : ev_kspan D k e = Some (o, s) -> ev_is k e.
+Proof.
+  destruct e as [t src dst f|t r]; cbn [ev_kspan ev_is]; [|discriminate].
+  destruct (lpf_key_eqb _ _) eqn:E; [|discriminate]. intros _. apply lpf_key_eqb_eq. exact E.
+Qed.
+
+Lemma ev_kspan_not D k e : ~ ev_is k e -> ev_kspan D k e = None /\ ev_kfirstb k e = false.
+Proof.
+  destruct e as [t src dst f|t r]; cbn [ev_kspan ev_is ev_kfirstb]; [|auto].
+  intros H. destruct (lpf_key_eqb _ _) eqn:E; [exfalso; apply H; apply lpf_key_eqb_eq; exact E | auto].
+Qed.
+
+Lemma ev_kspan_frag D k t src dst f : frag_key src dst f = k ->
+  ev_kspan D k (EvFrag t src dst f) = Some (frag_span D f) /\ ev_kfirstb k (EvFrag t src dst f) = frag_is_first f.
+Proof. intros H. cbn [ev_kspan ev_kfirstb]. rewrite H, lpf_key_eqb_refl. auto. Qed.
+
+Lemma kcov_app D k a b x : kcov D k (a ++ b) x <-> kcov D k a x \/ kcov D k b x.
+Proof. unfold kcov. apply Exists_app. Qed.
+
+Lemma kfirst_app k a b : kfirst k (a ++ b) <-> kfirst k a \/ kfirst k b.
+Proof. unfold kfirst. rewrite existsb_app. apply orb_true_iff. Qed.
+
+Lemma k_complete_mono D k a b c : k_complete D k b -> k_complete D k (a ++ b ++ c).
+Proof.
+  intros (Hf & Hc). split.
+  - apply kfirst_app. right. apply kfirst_app. left. exact Hf.
+  - intros x Hx. apply kcov_app. right. apply kcov_app. left. exact (Hc x Hx).
+Qed.
+
+(* a piece of D lies inside D *)
+Lemma piece_span D tag f : piece_ok D tag f ->
+  0 <= fst (frag_span D f) /\ 0 <= snd (frag_span D f) /\ fst (frag_span D f) + snd (frag_span D f) <= blen D.
+Proof.
+  unfold piece_ok, frag_span. destruct (rf_hdr f) as [s t|s t off].
+  - intros (_ & _ & d & Hd & Hl & _). rewrite (Hd (blen D) ltac:(lia)). cbn [fst snd]. pose proof (blen_nonneg d). lia.
+  - intros (_ & _ & Ho & Hle & _). cbn [fst snd]. pose proof (blen_nonneg (rf_payload f)). lia.
+Qed.
+
+Lemma ev_ok_span D k tag e o s : ev_ok D k tag e -> ev_kspan D k e = Some (o, s) -> 0 <= o /\ 0 <= s /\ o + s <= blen D.
+Proof.
+  destruct e as [t src dst f|t r]; cbn [ev_ok ev_kspan]; [|discriminate].
+  intros (Hp & _). destruct (lpf_key_eqb _ _) eqn:E; [|discriminate]. apply lpf_key_eqb_eq in E.
+  intros H. injection H as H. pose proof (piece_span D tag f (Hp E)) as Hs. rewrite H in Hs. exact Hs.
+Qed.
+
+(* ---------- the tracker: fullness ---------- *)
+
+Lemma peek_full_iff u L : asm_wf u -> 0 < L -> (forall x, tracked u x -> 0 <= x < L) ->
+  (asm_peek_front u = L <-> forall x, 0 <= x < L -> tracked u x).
+Proof.
+  intros Hwf HL Hin. rewrite asm_peek_front_remove.
+  destruct (asm_remove_front u) as (l', r) eqn:Er. cbn [snd].
+  destruct (c15_remove_front _ _ _ Hwf Er) as (_ & Hr0 & Hz & Hp). split.
+  - intros ->. exact (proj1 (Hp HL)).
+  - intros Hfull. destruct (Z.eq_dec r 0) as [->|Hne].
+    + exfalso. apply (proj2 (Hz eq_refl)). apply Hfull. lia.
+    + destruct (Hp ltac:(lia)) as (Hall & Hnot & _).
+      assert (~ r < L) by (intros Hlt; apply Hnot; apply Hfull; lia).
+      pose proof (Hin (r - 1) (Hall (r - 1) ltac:(lia))). lia.
+Qed.
+
+Lemma add_unb_tracked u o s x : asm_wf u -> 0 <= o -> 0 <= s ->
+  asm_wf (asm_add_unb u o s) /\ (tracked (asm_add_unb u o s) x <-> tracked u x \/ o <= x < o + s).
+Proof.
+  intros Hwf Ho Hs. destruct (add_unb_spec u o s Hwf Ho Hs) as (Hwf' & Hm). split; [exact Hwf'|].
+  rewrite !tracked_amem, (Hm 0 x). replace (0 + o) with o by lia. tauto.
+Qed.
+
+(* `assembler.add` when the merged union fits: the union *)
+Lemma asm_add_fits n u o s : asm_wf u -> 0 <= o -> 0 <= s ->
+  Z.of_nat (length (asm_add_unb u o s)) <= n -> fst (asm_add n u o s) = asm_add_unb u o s.
+Proof.
+  intros Hwf Ho Hs Hfit. pose proof (add_fits_ok n u o s Hfit) as Hok.
+  destruct (asm_add n u o s) as (l', ok) eqn:E. cbn [snd] in Hok. subst ok. cbn [fst].
+  exact (proj1 (add_ok_spec n u o s l' Hwf Ho Hs E)).
+Qed.
+
+(* ... and when it does not: the fragment is not recorded (the octets are written, but the range
+   is forgotten), C15_add_refused_only_when_too_many *)
+Lemma asm_add_overflows n u o s : asm_wf u -> Z.of_nat (length u) <= n -> 0 <= o -> 0 <= s ->
+  n < Z.of_nat (length (asm_add_unb u o s)) -> fst (asm_add n u o s) = u.
+Proof.
+  intros Hwf Hlen Ho Hs Hbig. destruct (asm_add n u o s) as (l', ok) eqn:E. cbn [fst]. destruct ok.
+  - destruct (add_ok_spec n u o s l' Hwf Ho Hs E) as (-> & Hl). specialize (Hl Hlen). lia.
+  - exact (proj1 (add_err_spec n u o s l' Hlen E)).
+Qed.
+
+Lemma kacc_tracked D k tag : forall evs u x, asm_wf u -> Forall (ev_ok D k tag) evs ->
+  asm_wf (kacc D k u evs) /\ (tracked (kacc D k u evs) x <-> tracked u x \/ kcov D k evs x).
+Proof.
+  induction evs as [|e evs IH]; intros u x Hwf Hok; cbn [kacc].
+  - split; [exact Hwf|]. unfold kcov. rewrite Exists_nil. tauto.
+  - inversion Hok as [|? ? He Hrest]; subst. unfold kcov. rewrite Exists_cons. fold (kcov D k evs x).
+    destruct (ev_kspan D k e) as [(o, s)|] eqn:Es.
+    + destruct (ev_ok_span D k tag e o s He Es) as (Ho & Hs & _).
+      destruct (add_unb_tracked u o s x Hwf Ho Hs) as (Hwf' & Ht).
+      destruct (IH (asm_add_unb u o s) x Hwf' Hrest) as (Hw2 & Ht2). split; [exact Hw2|].
+      rewrite Ht2, Ht. split.
+      * intros [[H|H]|H]; auto. right. left. exists o, s. auto.
+      * intros [H|[(o' & s' & E' & H)|H]]; auto. injection E' as <- <-. auto.
+    + destruct (IH u x Hwf Hrest) as (Hw2 & Ht2). split; [exact Hw2|]. rewrite Ht2.
+      split; [tauto|]. intros [H|[(o' & s' & E' & _)|H]]; auto. discriminate E'.
+Qed.
+
+(* ---------- invariant of the abstract state ---------- *)
+
+Definition kabs_inv (D : list Z) (st : kabs) : Prop :=
+  match st with
+  | None => True
+  | Some (u, tot, _) => asm_inv lpf_N u /\ (tot = None \/ tot = Some (blen D)) /\
+                        forall x, tracked u x -> 0 <= x < blen D
+  end.
+
+Lemma kstate_kabs_inv D k ss st : kstate D k ss st -> kabs_inv D st.
+Proof.
+  intros (_ & Hs & Hk). destruct st as [((u, tot), texp)|]; [|exact I].
+  destruct Hk as (i & (Hi & Hki & _) & <- & <- & _).
+  pose proof (Forall_nth_default _ ss lpf_slot_new i Hs Hi) as H. unfold slot_inv in H. rewrite Hki in H.
+  destruct (H eq_refl) as (Ha & Ht & _ & Hx). split; [exact Ha|]. split; [exact Ht|].
+  intros x Hxx. exact (proj1 (Hx x Hxx)).
+Qed.
+
+Lemma kabs_inv_expire D t st : kabs_inv D st -> kabs_inv D (kexpire t st).
+Proof. destruct st as [((u, tot), texp)|]; cbn [kexpire]; [|auto]. destruct (texp <? t); [intros _; exact I | auto]. Qed.
+
+Lemma kabs_inv_new D t : kabs_inv D (Some (asm_new, None, t)).
+Proof.
+  pose proof lpf_N_pos. split; [apply asm_new_inv; lia|]. split; [auto|]. intros x Hx. exfalso. exact (tracked_new x Hx).
+Qed.
+
+Lemma knext_tot_cases D f tot : tot = None \/ tot = Some (blen D) ->
+  knext_tot D f tot = None \/ knext_tot D f tot = Some (blen D).
+Proof. unfold knext_tot. destruct (frag_is_first f); auto. Qed.
+
+Lemma kabs_add_inv D tag f u tot texp : piece_ok D tag f -> kabs_inv D (Some (u, tot, texp)) ->
+  kabs_inv D (fst (kabs_add D f (u, tot, texp))) /\
+  (snd (kabs_add D f (u, tot, texp)) = None \/ snd (kabs_add D f (u, tot, texp)) = Some D).
+Proof.
+  intros Hp (Ha & Ht & Hx). destruct (piece_span D tag f Hp) as (Ho & Hs & Hle). unfold kabs_add.
+  destruct (kdone _ _); cbn [fst snd]; [split; [exact I | auto]|]. split; [|auto].
+  destruct (asm_add_tracked lpf_N u _ _ Ha Ho Hs) as (Ha' & Htr & _).
+  split; [exact Ha'|]. split; [apply knext_tot_cases; exact Ht|].
+  intros x Hxx. destruct (Htr x Hxx) as [H|H]; [exact (Hx x H) | lia].
+Qed.
+
+Lemma kabs_frag_inv D tag timeout t f avail st : piece_ok D tag f -> kabs_inv D st ->
+  kabs_inv D (fst (kabs_frag D timeout t f avail st)) /\
+  (snd (kabs_frag D timeout t f avail st) = None \/ snd (kabs_frag D timeout t f avail st) = Some D).
+Proof.
+  intros Hp Hi. unfold kabs_frag. pose proof (kabs_inv_expire D t st Hi) as He.
+  destruct (kexpire t st) as [((u, tot), texp)|].
+  - apply (kabs_add_inv D tag); assumption.
+  - destruct avail; [apply (kabs_add_inv D tag); [assumption | apply kabs_inv_new] | cbn; auto].
+Qed.
+
+(* ================================================================================
+   7. theorems about abstract runs
+   ================================================================================ *)
+
+Section AbstractRuns.
+  Variables (D : list Z) (tag timeout : Z) (k : lpf_key).
+
+  (* S: whatever is delivered at an arrival under k is D *)
+  Lemma kabs_run_exact_or_nothing : forall st evs rs st',
+    kabs_run D timeout k st evs rs st' -> Forall (ev_ok D k tag) evs -> kabs_inv D st ->
+    kabs_inv D st' /\ Forall2 (fun e r => ev_is k e -> r = None \/ r = Some D) evs rs.
+  Proof.
+    induction 1 as [st|st t src dst f avail evs rs st' Hk Hrun IH|st e r evs rs st' Hnk Hrun IH]; intros Hok Hinv.
+    - split; [exact Hinv | constructor].
+    - inversion Hok as [|? ? He Hrest]; subst. cbn [ev_ok] in He. destruct He as (Hp & _). specialize (Hp eq_refl).
+      destruct (kabs_frag_inv D tag timeout t f avail st Hp Hinv) as (Hi' & Hr).
+      destruct (IH Hrest Hi') as (H1 & H2). split; [exact H1|]. constructor; [intros _; exact Hr | exact H2].
+    - inversion Hok as [|? ? He Hrest]; subst.
+      destruct (IH Hrest (kabs_inv_expire D _ st Hinv)) as (H1 & H2). split; [exact H1|].
+      constructor; [intros Hc; contradiction | exact H2].
+  Qed.
+
+  (* A'': nothing is delivered under k unless the fragments under k received since the previous
+     delivery contain a FRAG1 and cover the datagram (no hypothesis on order, gaps or timing) *)
+  Definition kabs_sub (done : list lpl_ev) (st : kabs) : Prop :=
+    match st with
+    | None => True
+    | Some (u, tot, _) => (forall x, tracked u x -> kcov D k done x) /\ (tot <> None -> kfirst k done)
+    end.
+
+  Fixpoint delivered_only_when_complete (done evs : list lpl_ev) (rs : list (option (list Z))) : Prop :=
+    match evs, rs with
+    | [], [] => True
+    | e :: evs', r :: rs' =>
+        (ev_is k e -> r <> None -> k_complete D k (done ++ [e])) /\
+        delivered_only_when_complete (match r with Some _ => if ev_isb k e then [] else done ++ [e] | None => done ++ [e] end)
+                                     evs' rs'
+    | _, _ => False
+    end.
+
+  Lemma kabs_sub_mono done e st : kabs_sub done st -> kabs_sub (done ++ [e]) st.
+  Proof.
+    destruct st as [((u, tot), texp)|]; [|auto]. intros (H1 & H2). split.
+    - intros x Hx. apply kcov_app. left. exact (H1 x Hx).
+    - intros Ht. apply kfirst_app. left. exact (H2 Ht).
+  Qed.
+
+  Lemma kabs_sub_expire done t st : kabs_sub done st -> kabs_sub done (kexpire t st).
+  Proof. destruct st as [((u, tot), texp)|]; cbn [kexpire]; [|auto]. destruct (texp <? t); [intros _; exact I | auto]. Qed.
+
+  Lemma kabs_add_sub done t src dst f u tot texp : frag_key src dst f = k -> piece_ok D tag f ->
+    0 < blen D -> kabs_inv D (Some (u, tot, texp)) -> kabs_sub done (Some (u, tot, texp)) ->
+    kabs_sub (done ++ [EvFrag t src dst f]) (fst (kabs_add D f (u, tot, texp))) /\
+    (snd (kabs_add D f (u, tot, texp)) <> None -> k_complete D k (done ++ [EvFrag t src dst f])).
+  Proof.
+    intros Hk Hp HD (Ha & Ht & Hx) (Hs1 & Hs2). destruct (piece_span D tag f Hp) as (Ho & Hs & Hle).
+    destruct (ev_kspan_frag D k t src dst f Hk) as (Esp & Efi).
+    destruct (asm_add_tracked lpf_N u _ _ Ha Ho Hs) as (Ha' & Htr & _).
+    set (u' := fst (asm_add lpf_N u (fst (frag_span D f)) (snd (frag_span D f)))) in *.
+    assert (Hcov : forall x, tracked u' x -> kcov D k (done ++ [EvFrag t src dst f]) x).
+    { intros x Hxx. apply kcov_app. destruct (Htr x Hxx) as [H|H]; [left; exact (Hs1 x H)|].
+      right. constructor. exists (fst (frag_span D f)), (snd (frag_span D f)). split; [|exact H].
+      rewrite Esp. destruct (frag_span D f); reflexivity. }
+    assert (Hfst : knext_tot D f tot <> None -> kfirst k (done ++ [EvFrag t src dst f])).
+    { unfold knext_tot. intros H. apply kfirst_app. destruct (frag_is_first f) eqn:Ef.
+      - right. unfold kfirst. cbn [existsb]. rewrite Efi. reflexivity.
+      - left. exact (Hs2 H). }
+    unfold kabs_add. fold u'. destruct (kdone u' (knext_tot D f tot)) eqn:Ed; cbn [fst snd].
+    - split; [exact I|]. intros _. unfold kdone in Ed.
+      destruct (knext_tot D f tot) as [tt|] eqn:Et; [|discriminate Ed]. apply Z.eqb_eq in Ed.
+      assert (Htt : tt = blen D) by (destruct (knext_tot_cases D f tot Ht) as [Hc|Hc]; rewrite Et in Hc; congruence).
+      split; [apply Hfst; discriminate|]. intros x Hxr. apply Hcov.
+      assert (Hin : forall y, tracked u' y -> 0 <= y < blen D).
+      { intros y Hy. destruct (Htr y Hy) as [Hq|Hq]; [exact (Hx y Hq) | lia]. }
+      exact (proj1 (peek_full_iff u' (blen D) (proj1 Ha') HD Hin) (eq_trans (eq_sym Ed) Htt) x Hxr).
+    - split; [split; [exact Hcov | exact Hfst]|]. intros H. contradiction H. reflexivity.
+  Qed.
+
+  Lemma kabs_run_delivered_only_when_complete : forall st evs rs st',
+    kabs_run D timeout k st evs rs st' -> forall done, Forall (ev_ok D k tag) evs -> 0 < blen D ->
+    kabs_inv D st -> kabs_sub done st -> delivered_only_when_complete done evs rs.
+  Proof.
+    induction 1 as [st|st t src dst f avail evs rs st' Hk Hrun IH|st e r evs rs st' Hnk Hrun IH]; intros done Hok HD Hinv Hsub.
+    - exact I.
+    - inversion Hok as [|? ? He Hrest]; subst. cbn [ev_ok] in He. destruct He as (Hp & _). specialize (Hp Hk).
+      destruct (kabs_frag_inv D tag timeout t f avail st Hp Hinv) as (Hi' & Hr).
+      set (e := EvFrag t src dst f) in *.
+      assert (Hstep : kabs_sub (done ++ [e]) (fst (kabs_frag D timeout t f avail st)) /\
+                      (snd (kabs_frag D timeout t f avail st) <> None -> k_complete D k (done ++ [e]))).
+      { unfold kabs_frag. pose proof (kabs_inv_expire D t st Hinv) as Hie. pose proof (kabs_sub_expire done t st Hsub) as Hse.
+        destruct (kexpire t st) as [((u, tot), texp)|].
+        - apply kabs_add_sub; auto.
+        - destruct avail.
+          + apply kabs_add_sub; auto; [apply kabs_inv_new|].
+            split; [intros x Hx; exfalso; exact (tracked_new x Hx) | intros H; contradiction H; reflexivity].
+          + cbn [fst snd]. split; [exact I | intros H; contradiction H; reflexivity]. }
+      destruct Hstep as (Hsub' & Hcomp). cbn [delivered_only_when_complete]. split; [intros _; exact Hcomp|].
+      assert (Eb : ev_isb k e = true) by (apply ev_isb_true; exact Hk). rewrite Eb.
+      destruct (snd (kabs_frag D timeout t f avail st)) as [d|] eqn:Er.
+      + (* delivered: the state is None afterwards *)
+        assert (Hnone : fst (kabs_frag D timeout t f avail st) = None).
+        { revert Er. unfold kabs_frag, kabs_add.
+          destruct (kexpire t st) as [((u, tot), texp)|]; [|destruct avail];
+            repeat match goal with |- context [if ?c then _ else _] => destruct c end; cbn [fst snd]; congruence. }
+        apply IH; auto. rewrite Hnone. exact I.
+      + apply IH; auto.
+    - inversion Hok as [|? ? He Hrest]; subst. cbn [delivered_only_when_complete]. split; [intros Hc; contradiction|].
+      assert (Eb : ev_isb k e = false) by (destruct (ev_isb k e) eqn:E; [apply ev_isb_true in E; contradiction | reflexivity]).
+      rewrite Eb. assert (Hd : (match r with Some _ => done ++ [e] | None => done ++ [e] end) = done ++ [e]) by (destruct r; reflexivity).
+      rewrite Hd. apply IH; auto; [apply kabs_inv_expire; exact Hinv | apply kabs_sub_mono, kabs_sub_expire; exact Hsub].
+  Qed.
+
+  (* an incomplete set of fragments delivers nothing *)
+  Lemma dowc_incomplete : forall evs rs done, delivered_only_when_complete done evs rs ->
+    ~ k_complete D k (done ++ evs) -> Forall2 (fun e r => ev_is k e -> r = None) evs rs.
+  Proof.
+    induction evs as [|e evs IH]; intros [|r rs] done H Hn; cbn [delivered_only_when_complete] in H; try contradiction; [constructor|].
+    destruct H as (H1 & H2).
+    assert (Hr : ev_is k e -> r = None).
+    { intros He. destruct r as [d|]; [|reflexivity]. exfalso. apply Hn.
+      pose proof (k_complete_mono D k [] (done ++ [e]) evs (H1 He ltac:(discriminate))) as Hm. cbn [app] in Hm.
+      rewrite <- app_assoc in Hm. exact Hm. }
+    constructor; [exact Hr|].
+    destruct (ev_is_dec k e) as [He|He].
+    - rewrite (Hr He) in H2. apply (IH rs (done ++ [e])); [exact H2|]. rewrite <- app_assoc. exact Hn.
+    - assert (Eb : ev_isb k e = false) by (destruct (ev_isb k e) eqn:E; [apply ev_isb_true in E; contradiction | reflexivity]).
+      rewrite Eb in H2. assert (Hd : (match r with Some _ => done ++ [e] | None => done ++ [e] end) = done ++ [e]) by (destruct r; reflexivity).
+      rewrite Hd in H2. apply (IH rs (done ++ [e])); [exact H2|]. rewrite <- app_assoc. exact Hn.
+  Qed.
+End AbstractRuns.
+
+(* ================================================================================
+   8. liveness on abstract runs
+   ================================================================================ *)
+
+Section AbstractLiveness.
+  Variables (D : list Z) (tag timeout : Z).
+  Hypothesis HD : 0 < blen D.
+
+  Definition full (u : asm) : Prop := forall x, 0 <= x < blen D -> tracked u x.
+
+  Lemma ktot_cons k e tot evs : ktot D k tot (e :: evs) = ktot D k (if ev_kfirstb k e then Some (blen D) else tot) evs.
+  Proof. unfold ktot. cbn [existsb]. destruct (ev_kfirstb k e); cbn [orb]; [destruct (existsb _ evs)|]; reflexivity. Qed.
+
+  Lemma ktot_mono k tot evs : tot = Some (blen D) -> ktot D k tot evs = Some (blen D).
+  Proof. intros ->. unfold ktot. destruct (existsb _ evs); reflexivity. Qed.
+
+  Lemma full_kacc_mono k : forall evs u, asm_wf u -> Forall (ev_ok D k tag) evs -> full u -> full (kacc D k u evs).
+  Proof.
+    intros evs u Hwf Hok Hf x Hx. apply (proj2 (kacc_tracked D k tag evs u x Hwf Hok)). left. exact (Hf x Hx).
+  Qed.
+
+  (* the abstract state after a fragment with span (o, s), first-flag b, when the union fits *)
+  Lemma kabs_add_fits f u tot texp : piece_ok D tag f -> kabs_inv D (Some (u, tot, texp)) ->
+    Z.of_nat (length (asm_add_unb u (fst (frag_span D f)) (snd (frag_span D f)))) <= lpf_N ->
+    let u' := asm_add_unb u (fst (frag_span D f)) (snd (frag_span D f)) in
+    let tot' := knext_tot D f tot in
+    asm_wf u' /\
+    ((tot' = Some (blen D) /\ full u') /\ kabs_add D f (u, tot, texp) = (None, Some D) \/
+     ~ (tot' = Some (blen D) /\ full u') /\ kabs_add D f (u, tot, texp) = (Some (u', tot', texp), None)).
+  Proof.
+    intros Hp (Ha & Ht & Hx) Hfit u' tot'. destruct (piece_span D tag f Hp) as (Ho & Hs & Hle).
+    destruct Ha as (Hwf & Hlen).
+    pose proof (asm_add_fits lpf_N u _ _ Hwf Ho Hs Hfit) as Eadd. fold u' in Eadd.
+    assert (Hwf' : asm_wf u') by (apply add_unb_spec; assumption). split; [exact Hwf'|].
+    assert (Hin : forall y, tracked u' y -> 0 <= y < blen D).
+    { intros y Hy. apply (add_unb_tracked u _ _ y Hwf Ho Hs) in Hy. destruct Hy as [H|H]; [exact (Hx y H) | lia]. }
+    unfold kabs_add. rewrite Eadd. fold tot'. unfold kdone.
+    destruct (knext_tot_cases D f tot Ht) as [Hc|Hc]; fold tot' in Hc; rewrite Hc.
+    - right. split; [intros (H & _); discriminate H | reflexivity].
+    - destruct (blen D =? asm_peek_front u') eqn:E.
+      + left. apply Z.eqb_eq in E. split; [|reflexivity]. split; [reflexivity|].
+        exact (proj1 (peek_full_iff u' (blen D) Hwf' HD Hin) (eq_sym E)).
+      + right. apply Z.eqb_neq in E. split; [|reflexivity]. intros (_ & Hf). apply E. symmetry.
+        exact (proj2 (peek_full_iff u' (blen D) Hwf' HD Hin) Hf).
+  Qed.
+
+  (* L1: as long as the fragments received under k (on top of u, tot) do not complete the datagram,
+     they are all recorded -- provided they arrive before the slot expires and the merged ranges fit
+     the tracker -- and nothing is delivered *)
+  Lemma kabs_run_incomplete k : forall evs st rs st', kabs_run D timeout k st evs rs st' ->
+    forall u tot texp, st = Some (u, tot, texp) ->
+    Forall (ev_ok D k tag) evs -> kabs_inv D st ->
+    Forall (fun e => ev_time e <= texp) evs -> gaps_fit lpf_N D k u evs ->
+    ~ (ktot D k tot evs = Some (blen D) /\ full (kacc D k u evs)) ->
+    st' = Some (kacc D k u evs, ktot D k tot evs, texp) /\ kabs_inv D st' /\
+    Forall2 (fun e r => ev_is k e -> r = None) evs rs.
+  Proof.
+    induction 1 as [st|st t src dst f avail evs rs st' Hk Hrun IH|st e r evs rs st' Hnk Hrun IH];
+      intros u tot texp -> Hok Hinv Htime Hgaps Hinc.
+    - split; [reflexivity|]. split; [exact Hinv | constructor].
+    - inversion Hok as [|? ? He Hrest]; subst. inversion Htime as [|? ? Ht0 Htr]; subst. cbn [ev_time] in Ht0.
+      cbn [ev_ok] in He. destruct He as (Hp & _). specialize (Hp eq_refl).
+      destruct (ev_kspan_frag D _ t src dst f eq_refl) as (Esp & Efi).
+      cbn [gaps_fit] in Hgaps. rewrite Esp in Hgaps. destruct (frag_span D f) as (o, s) eqn:Efs.
+      destruct Hgaps as (Hfit & Hgaps').
+      cbn [kacc] in Hinc |- *. rewrite Esp in Hinc |- *. rewrite ktot_cons, Efi in Hinc |- *.
+      assert (Hexp : kabs_frag D timeout t f avail (Some (u, tot, texp)) = kabs_add D f (u, tot, texp)).
+      { unfold kabs_frag. cbn [kexpire]. replace (texp <? t) with false by (symmetry; apply Z.ltb_ge; lia). reflexivity. }
+      rewrite Hexp in *.
+      pose proof (kabs_add_fits f u tot texp Hp Hinv) as Hadd. rewrite Efs in Hadd. cbn [fst snd] in Hadd.
+      destruct (Hadd Hfit) as (Hwf' & [(Hcomp & _)|(Hnc & Eadd)]).
+      + exfalso. apply Hinc. destruct Hcomp as (Ht' & Hf'). unfold knext_tot in Ht'. split.
+        * apply ktot_mono. exact Ht'.
+        * apply (full_kacc_mono _ evs _ Hwf' Hrest Hf').
+      + rewrite Eadd in *. cbn [fst snd] in *.
+        assert (Hinv' : kabs_inv D (Some (asm_add_unb u o s, knext_tot D f tot, texp))).
+        { pose proof (kabs_add_inv D tag f u tot texp Hp Hinv) as (Hi' & _). rewrite Eadd in Hi'. exact Hi'. }
+        destruct (IH _ _ _ eq_refl Hrest Hinv' Htr Hgaps' Hinc) as (-> & Hi2 & HF).
+        split; [reflexivity|]. split; [exact Hi2|]. constructor; [intros _; reflexivity | exact HF].
+    - inversion Hok as [|? ? He Hrest]; subst. inversion Htime as [|? ? Ht0 Htr]; subst.
+      destruct (ev_kspan_not D k e Hnk) as (Esp & Efi).
+      cbn [gaps_fit] in Hgaps. rewrite Esp in Hgaps. cbn [kacc] in Hinc |- *. rewrite Esp in Hinc |- *.
+      rewrite ktot_cons, Efi in Hinc |- *.
+      assert (Hexp : kexpire (ev_time e) (Some (u, tot, texp)) = Some (u, tot, texp)).
+      { cbn [kexpire]. replace (texp <? ev_time e) with false by (symmetry; apply Z.ltb_ge; lia). reflexivity. }
+      rewrite Hexp in *.
+      destruct (IH _ _ _ eq_refl Hrest Hinv Htr Hgaps Hinc) as (-> & Hi2 & HF).
+      split; [reflexivity|]. split; [exact Hi2|]. constructor; [intros Hc; contradiction | exact HF].
+  Qed.
+
+  (* L2: the fragment that completes the datagram delivers it, and the slot is released *)
+  Lemma kabs_frag_completes t f avail u tot texp : piece_ok D tag f -> kabs_inv D (Some (u, tot, texp)) ->
+    t <= texp ->
+    Z.of_nat (length (asm_add_unb u (fst (frag_span D f)) (snd (frag_span D f)))) <= lpf_N ->
+    knext_tot D f tot = Some (blen D) -> full (asm_add_unb u (fst (frag_span D f)) (snd (frag_span D f))) ->
+    kabs_frag D timeout t f avail (Some (u, tot, texp)) = (None, Some D).
+  Proof.
+    intros Hp Hinv Ht Hfit Htot Hfull. unfold kabs_frag. cbn [kexpire].
+    replace (texp <? t) with false by (symmetry; apply Z.ltb_ge; lia).
+    destruct (kabs_add_fits f u tot texp Hp Hinv Hfit) as (_ & [(_ & E)|(Hn & _)]); [exact E|].
+    exfalso. apply Hn. auto.
+  Qed.
+
+  Lemma kacc_app k : forall a b u, kacc D k u (a ++ b) = kacc D k (kacc D k u a) b.
+  Proof. induction a as [|e a IH]; intros b u; cbn [app kacc]; [reflexivity | apply IH]. Qed.
+
+  Lemma ktot_app k tot a b : ktot D k tot (a ++ b) = ktot D k (ktot D k tot a) b.
+  Proof. unfold ktot. rewrite existsb_app. destruct (existsb _ a), (existsb _ b); reflexivity. Qed.
+
+  Lemma gaps_fit_app k n : forall a b u, gaps_fit n D k u (a ++ b) <-> gaps_fit n D k u a /\ gaps_fit n D k (kacc D k u a) b.
+  Proof.
+    induction a as [|e a IH]; intros b u; cbn [app gaps_fit kacc]; [tauto|].
+    destruct (ev_kspan D k e) as [(o, s)|]; rewrite IH; tauto.
+  Qed.
+
+  (* completeness in terms of the accumulated tracker *)
+  Lemma k_complete_kacc k evs : Forall (ev_ok D k tag) evs ->
+    (k_complete D k evs <-> ktot D k None evs = Some (blen D) /\ full (kacc D k asm_new evs)).
+  Proof.
+    intros Hok. unfold k_complete, kfirst, ktot, full.
+    assert (Hc : forall x, tracked (kacc D k asm_new evs) x <-> kcov D k evs x).
+    { intros x. rewrite (proj2 (kacc_tracked D k tag evs asm_new x I Hok)). split; [|auto].
+      intros [H|H]; [exfalso; exact (tracked_new x H) | exact H]. }
+    split.
+    - intros (Hf & Hcov). rewrite Hf. split; [reflexivity|]. intros x Hx. apply Hc. exact (Hcov x Hx).
+    - intros (Hf & Hfull). destruct (existsb _ evs); [|discriminate Hf]. split; [reflexivity|].
+      intros x Hx. apply Hc. exact (Hfull x Hx).
+  Qed.
+
+  (* T: from a slot created at t0 (u = {}, no total size yet): if pre ++ [a] is the shortest prefix
+     of the arrivals whose fragments under k complete the datagram, all before the expiry, in an
+     order whose merged ranges fit the tracker, then nothing is delivered during pre, D is delivered
+     at a, and the rest runs from the released state *)
+  Theorem kabs_run_delivers k : forall pre a post rs st' texp,
+    kabs_run D timeout k (Some (asm_new, None, texp)) (pre ++ a :: post) rs st' ->
+    Forall (ev_ok D k tag) (pre ++ [a]) ->
+    Forall (fun e => ev_time e <= texp) (pre ++ [a]) -> gaps_fit lpf_N D k asm_new (pre ++ [a]) ->
+    ev_is k a -> k_complete D k (pre ++ [a]) -> ~ k_complete D k pre ->
+    exists rs_pre rs_post, rs = rs_pre ++ Some D :: rs_post /\ length rs_pre = length pre /\
+      Forall2 (fun e r => ev_is k e -> r = None) pre rs_pre /\
+      kabs_run D timeout k None post rs_post st'.
+  Proof.
+    intros pre a post rs st' texp Hrun Hok Htime Hgaps Hka Hcomp Hninc.
+    apply Forall_app in Hok. destruct Hok as (Hokp & Hoka). apply Forall_app in Htime. destruct Htime as (Htp & Hta).
+    apply gaps_fit_app in Hgaps. destruct Hgaps as (Hgp & Hga).
+    destruct (kabs_run_app D timeout k pre (a :: post) _ _ _ Hrun) as (rs1 & rs2 & stm & -> & Hl1 & Hr1 & Hr2).
+    assert (Hinv0 : kabs_inv D (Some (asm_new, None, texp))) by apply kabs_inv_new.
+    assert (Hinc : ~ (ktot D k None pre = Some (blen D) /\ full (kacc D k asm_new pre))).
+    { intros H. apply Hninc. apply (k_complete_kacc k pre Hokp). exact H. }
+    destruct (kabs_run_incomplete k pre _ _ _ Hr1 asm_new None texp eq_refl Hokp Hinv0 Htp Hgp Hinc) as (-> & Hinvm & HF).
+    apply (k_complete_kacc k (pre ++ [a])) in Hcomp; [|apply Forall_app; auto].
+    rewrite kacc_app, ktot_app in Hcomp. destruct Hcomp as (Htot & Hfull).
+    inversion Hr2 as [|st0 t src dst f avail evs0 rs0 st0' Hk Hrun'|st0 e0 r evs0 rs0 st0' Hnk Hrun']; subst; [|contradiction].
+    inversion Hoka as [|? ? Hea _]; subst. cbn [ev_ok] in Hea. destruct Hea as (Hp & _). specialize (Hp eq_refl).
+    inversion Hta as [|? ? Hta' _]; subst. cbn [ev_time] in Hta'.
+    destruct (ev_kspan_frag D _ t src dst f eq_refl) as (Esp & Efi).
+    cbn [gaps_fit] in Hga. rewrite Esp in Hga. cbn [kacc] in Hfull. rewrite Esp in Hfull.
+    destruct (frag_span D f) as (o, s) eqn:Efs. destruct Hga as (Hfit & _).
+    assert (Htot' : knext_tot D f (ktot D (frag_key src dst f) None pre) = Some (blen D)).
+    { unfold ktot in Htot. cbn [existsb] in Htot. rewrite Efi in Htot. unfold knext_tot.
+      destruct (frag_is_first f); [reflexivity|]. cbn [orb] in Htot.
+      destruct (ktot D (frag_key src dst f) None pre) eqn:E; unfold ktot in E; rewrite E in Htot; exact Htot. }
+    pose proof (kabs_frag_completes t f avail _ _ texp Hp Hinvm Hta') as Hc. rewrite Efs in Hc. cbn [fst snd] in Hc.
+    specialize (Hc Hfit Htot' Hfull). rewrite Hc in *. cbn [fst snd] in *.
+    exists rs1, rs0. split; [reflexivity|]. split; [exact Hl1|]. split; [exact HF | exact Hrun'].
+  Qed.
+
+  (* timeout: once the slot has expired, what was collected in it no longer counts *)
+  Lemma kabs_run_expired k : forall e evs st rs st',
+    kabs_run D timeout k st (e :: evs) rs st' -> kexpire (ev_time e) st = None ->
+    kabs_run D timeout k None (e :: evs) rs st'.
+  Proof.
+    intros e evs st rs st' H Hexp.
+    inversion H as [|st0 t src dst f avail evs0 rs0 st0' Hk Hrun'|st0 e0 r evs0 rs0 st0' Hnk Hrun']; subst.
+    - cbn [ev_time] in Hexp.
+      assert (E : kabs_frag D timeout t f avail st = kabs_frag D timeout t f avail None).
+      { unfold kabs_frag. rewrite Hexp. reflexivity. }
+      rewrite E in *. apply kr_frag; [reflexivity | exact Hrun'].
+    - apply kr_other; [exact Hnk|]. rewrite Hexp in Hrun'. exact Hrun'.
+  Qed.
+End AbstractLiveness.
